@@ -61,6 +61,14 @@ def isAttK (W : World) (first k : Nat) : Bool :=
   | some e => e.kind == .ref && e.ref == attestationsRef && decide (first ≤ k)
   | none => false
 
+/-- every entry recorded for the policy reference is a reference entry (no propagation into it) -/
+def PolicyRefOnly (W : World) : Prop :=
+  ∀ (j : Nat) (e : LogEntry), W.log[j]? = some e → e.ref = policyRef → isUpdater e = true → e.kind = .ref
+
+/-- the same for the attestations reference -/
+def AttRefOnly (W : World) : Prop :=
+  ∀ (j : Nat) (e : LogEntry), W.log[j]? = some e → e.ref = attestationsRef → isUpdater e = true → e.kind = .ref
+
 /-- the policy state recorded last before index `m` inside the range, else the state the walk started from -/
 def polInForce (W : World) (first : Nat) (p0 : Option Policy) (m : Nat) : Option Policy :=
   match lastBelow (W.isPolK first) m with
